@@ -5,7 +5,26 @@ accesses is exposed too)."""
 import threading, sys
 
 
+class DenseTrace:
+    """sys.settrace function: a yield point at EVERY LINE of the given functions (pairs (file name, function name)) - used for
+    the functions that touch process-wide state the committed inventory does not know (directed search for race windows)"""
+    def __init__(self, dense):
+        self.dense = set(dense)
+
+    def __call__(self, frame, event, arg):
+        if event == "call" and (frame.f_code.co_filename, frame.f_code.co_name) in self.dense:
+            return self.local
+        return None
+
+    def local(self, frame, event, arg):
+        if event == "line" and SchedDict.ctl is not None:
+            SchedDict.ctl.yield_point("call:line")
+        return self.local
+
+
 class Controller:
+    tracer = None       # a DenseTrace installed in every worker thread, or None
+
     def __init__(self, schedule, nthreads, rnd=None):
         self.schedule = list(schedule)
         self.go = [threading.Semaphore(0) for _ in range(nthreads)]
@@ -29,9 +48,13 @@ class Controller:
         self.arrived.release()          # reached the start line
         self.go[t].acquire()
         try:
+            if Controller.tracer is not None:
+                sys.settrace(Controller.tracer)
             results[t] = ("ok", fn())
         except BaseException as e:  # noqa
             results[t] = ("exc", f"{type(e).__name__}: {e}")
+        finally:
+            sys.settrace(None)
         self.done[t] = True
         self.arrived.release()
 
